@@ -5,10 +5,10 @@ READY = False
 CLAIMS = {
  "C21": dict(technique="TLA+ refinement (AddCandle/GetCandle/Output accumulator with Truncate/Ceil/IsWithin vs declarative Candles(rows, w)) checked by TLC; TLC-enumerated row sequences replayed into the real tickcandler / candlecandler",
              text="TLC checks exhaustively (all row sequences up to the bound: windows x in-window times x price levels, duplicate timestamps and every permutation, tick and candle inputs, duration-based and calendar-day windows) that the implementation-shaped candle accumulator (three-branch AddCandle with OpenTime/CloseTime comparisons, high/low updates, sums, Count; GetCandle with Truncate/IsWithin; sorted Output) refines the declarative definition (one candle per non-empty window in time order, open/close = price of an earliest/a latest row, high/low extremes, sums and averages over the window's rows), and that for distinct timestamps every permutation yields the same OHLC. All sequences up to a short length and a seeded sample of the longer ones are replayed into the real aggregates (AggRunner.Run and multi-batch Accum) for every timeframe from 1Sec to 1D with boundary offsets (window start, last nanosecond), price columns of every supported type with negative and extreme float32 values, and the real output is compared with the declarative candles.",
-             note="Trusted: TLC, the Python concretisation (model times -> epochs/nanoseconds, levels -> exactly float32-representable values, sums through an exact affine map), UTC. Bounded: quick <= 4 rows over 3 windows x 3 times x 3 prices (ticks) and <= 3 candle rows over 2 windows x 2 times x 3 prices; weeks/months/years and multi-day timeframes are outside the statement's 'seconds to days'."),
+             note="Trusted: TLC, the Python concretisation (model times -> epochs/nanoseconds, levels -> exactly float32-representable values, sums through an exact affine map), UTC. Bounded: quick = ticks <= 4 rows over 2 windows x 3 times x 3 prices and <= 3 rows over 3 x 3 x 4 (duration and calendar-day windows), candle rows <= 3 over 1 x 3 x 3 and 2 x 2 x 2; thorough = ticks <= 4 rows over 3 windows x 3 times x 5 prices, candle rows <= 3 over 2 x 3 x 3. Weeks/months/years and multi-day timeframes (e.g. '2D', which the code treats as '1D') are outside the statement's 'seconds to days'."),
  "C22": dict(technique="TLA+ invariant (fine candles re-aggregated by the candle accumulator = direct coarse aggregation) checked by TLC; TLC-enumerated row sequences replayed through the real call chain tickcandler|candlecandler(fine) -> candlecandler(coarse) for every divisor pair of timeframes",
              text="TLC checks, for every enumerated row sequence (ticks and candles, ties included), that feeding the output of the fine accumulator into the coarse candle accumulator gives exactly the OHLC of the direct coarse accumulation and satisfies the declarative coarse candles (coarse = Ratio x fine, duration and calendar-day coarse windows). The same sequences (all short ones, a seeded sample of the longer ones) are executed on the real code as the call chain fine -> candlecandler(coarse) and as the direct coarse aggregate, for all 55 divisor pairs of utils.Timeframes, with the model's fine windows placed at the first/last/seeded fine windows of the coarse window; the two real outputs must be equal (on tied timestamps either admissible open/close is accepted).",
-             note="Trusted: TLC, the Python concretisation, UTC. Bounded: <= 4 rows, 2 coarse windows x 2 (thorough 3) fine windows x 2 times x 3 prices. The property is relative (composed = direct), so a defect that corrupts both sides alike is C21's, not C22's."),
+             note="Trusted: TLC, the Python concretisation, UTC. Bounded: quick = ticks <= 4 rows over 2 coarse windows x 2 fine windows x 2 times x 3 prices, candle rows <= 3 over 1 x 2 x 2 x 2; thorough = 3 fine windows per coarse window, 4 prices, candle rows over 3 prices. The property is relative (composed = direct), so a defect that corrupts both sides alike is C21's, not C22's."),
  "C23": dict(technique="TLA+ refinement (Accum of count/min/max/avg over batches, gap threshold scan vs declarative count/min/max/mean/gap pairs) checked by TLC; every enumerated history replayed into the real aggregates for every numeric column type",
              text="TLC checks exhaustively (value sequences of length 0..4 split into up to 3 Accum batches; time-ordered timestamp sequences x thresholds on and between the gaps, whole seconds and half seconds) that the implementation-shaped accumulators (Count.Sum += Len, Min/Max initialise from the first element then fold, Avg sum/count, Gap epochs[1:]-epochs[:-1] > threshold) refine count / min / max / mean / the set of consecutive pairs whose time difference exceeds the threshold. Every enumerated history is replayed into the real aggregates through AggRunner.Run (single batch) or Accum (several batches) for all ten numeric column types with boundary values of each type (min/max/count) and an exact affine value map (avg); for empty input only count = 0 and absence of a panic are demanded.",
              note="Trusted: TLC, the Python concretisation (levels -> per-type boundary values exactly representable in float32). Known findings are modelled as named deviations (NarrowTypesDropped, GapIgnoresNanos). gap without an explicit threshold (z-score mode) is outside the statement."),
@@ -347,7 +347,7 @@ def run_c21(tier):
     for kind, cls, nw, nt, np_, maxlen, permlen, fulllen, mod in plan:
         name = "Agg_c21_%s_%s_%dx%dx%d_len%d.cfg" % (kind, cls, nw, nt, np_, maxlen)
         consts = candle_consts(kind, cls, cls, nw, nt, 1, np_, maxlen, permlen, fulllen, mod, rng.randrange(mod))
-        tcases = tlc_candle(res, name, consts, 1500 if quick else 3000, ["RefinesCandles", "OrderIndependent"])
+        tcases = tlc_candle(res, name, consts, 1500 if quick else 7200, ["RefinesCandles", "OrderIndependent"])
         if len(tcases) < 10:
             raise Undecided("TLC emitted only %d cases for %s" % (len(tcases), name))
         res.cov.setdefault("cases_emitted", {})[name] = len(tcases)
@@ -443,7 +443,7 @@ def run_c22(tier):
     for kind, ccls, nw, nt, ratio, np_, maxlen, permlen, fulllen, mod in plan:
         name = "Agg_c22_%s_%s_%dx%dx%dx%d_len%d.cfg" % (kind, ccls, nw, ratio, nt, np_, maxlen)
         consts = candle_consts(kind, "duration", ccls, nw, nt, ratio, np_, maxlen, permlen, fulllen, mod, rng.randrange(mod))
-        tcases = tlc_candle(res, name, consts, 1500 if quick else 3000, ["RefinesCandles", "Composes"])
+        tcases = tlc_candle(res, name, consts, 1500 if quick else 7200, ["RefinesCandles", "Composes"])
         if len(tcases) < 10:
             raise Undecided("TLC emitted only %d cases for %s" % (len(tcases), name))
         res.cov.setdefault("cases_emitted", {})[name] = len(tcases)
